@@ -108,7 +108,13 @@ fn is_u16(v: &dyn ValueObj, x: u16) -> bool { v.as_any().downcast_ref::<u16>() =
 fn is_u32(v: &dyn ValueObj, x: u32) -> bool { v.as_any().downcast_ref::<u32>() == Some(&x) }
 
 /// two events first, so that a correct `index` is 2 (and not 0 or the number of events of a kind)
-fn prefixed() -> EventTracker { let mut t = EventTracker::default(); t.build_start(); t.build_end(); t }
+/// a tracker that has already recorded an EARLIER build of 1 or 2 events before the build under test starts: indices and
+/// query helpers must refer to positions in the CURRENT stream (build_start clears), not to a count over the tracker's lifetime
+fn prefixed() -> EventTracker {
+  let mut t = EventTracker::default();
+  t.build_start(); if kani::any() { t.build_end(); }
+  t.build_start(); t.build_end(); t
+}
 
 #[kani::proof]
 fn c17_event_tracker_build_events() {
